@@ -52,8 +52,8 @@ PROPS = {
         explanation='THEOREM (group c01, theorem_c01_plain): for every type parameter that behaves like the built-in string shapes (conversion total and faithful -- std; hook = shape_rel -- proved in lib_shape), every string s and every value g that parse_post allows for s: parse_post applied to canon_spec(g) allows only Ok values, with the same type text and the same field texts, whose canon_spec is the same string. Together with from_str == parse_post (group parse) and Display::fmt == canon_spec (group fmt) this is C01 for the type-agnostic PURL, for all strings (a checksum qualifier is handled through theorem_checksum_rebuild, group ckfix). theorem_c01_typed: the same for the PackageType instance (conversion = the name-table contract proved in pkgtype, hook = pkg_finish_rel proved in pkgtype; name rules idempotent, names injective). What is left to assumptions: std / dependency contracts (section 9 of DESIGN.md), `==` on GenericPurl being equality of the type and of the texts (derive semantics + the verified QualifierKey::eq), String::from_str being the identity. The bounded suites remain as a cross-check on the compiled code. Pieces: Proved for all strings (Verus): from_str == parse_post (the parser as a specification function written from the statement), Display::fmt == canon_spec, build() canonicalises; complete on a finite domain (Kani): every byte of every escape set through the real encoder. ALSO proved (group inverse, 100 lemmas): the inverse direction at the specification level -- for a valid type and normalised parts (what build() and the decoders guarantee), phase_a(canon_spec(ty, p)) and phase_b return exactly ty and the parts (lemma_parse_canon), from a per-character definition of percent-encoding and the assumed dec(enc(s)) = s. The end-to-end statement is also cross-checked BOUNDED on the compiled code: every accepted string of the token language T_N and of the spelling domain S is printed, re-parsed, compared and printed again, for String, SmallString and PackageType.'),
     'C02': dict(level='other', groups=['parse', 'parse_seg', 'lib_shape', 'qual', 'cksum'], kani=['type_char', 'key_char'], bounded=['spell:C02', 'tokens:C02', 'scale:C02'] + A,
         explanation="Proved for all strings (Verus): from_str == parse_post -- designated separators taken right to left (last '#', last '?', first '/', last '@', last '/'), each component routed to its decoder; decode_subpath / decode_namespace / decode_qualifiers equal their fold specifications; type and key legality and lower-casing; checksum text. BOUNDED: that every permitted spelling of a tuple is mapped to the tuple by these specification functions -- exhaustive tuples x spelling freedoms (S) and every T_N string against an independent reference parser, on the real code."),
-    'C03': dict(level='other', groups=['fmt', 'qual', 'purl', 'pkgtype'], kani=ESC, bounded=['format:C03', 'tokens:C03', 'scale:C03', 'spell:C03', 'qualmap', 'preds', 'shapes'] + A,
-        explanation='Proved (Verus): on Ok, the output of Display::fmt is exactly canon_spec(type, parts) = pkg: type / [namespace /] name [@ version] [? k=v & ...] [# subpath] with absent parts omitted, pairs in storage order; storage order is strictly ascending after every verified mutator; accessors map empty to None; the documented panic is the precondition. Complete (Kani): every byte of every escape set, upper-case hex. BOUNDED: retain keeps the order; cross-check against an independent renderer on every Unicode scalar value in every component position, all ASCII pairs, T_N, S, and the map exploration.'),
+    'C03': dict(level='proof', groups=['fmt', 'qual', 'purl', 'pkgtype', 'inverse', 'c01'], kani=ESC, bounded=['format:C03', 'tokens:C03', 'scale:C03', 'spell:C03', 'qualmap', 'preds', 'shapes'] + A,
+        explanation='Proved (Verus): on Ok, the output of Display::fmt is exactly canon_spec(type, parts) = pkg: type / [namespace /] name [@ version] [? k=v & ...] [# subpath] with absent parts omitted, pairs in storage order; storage order is strictly ascending after every verified mutator; accessors map empty to None; the documented panic is the precondition. Complete (Kani): every byte of every escape set, upper-case hex. THEOREMS (group inverse, c03.rs): theorem_c03_printable -- canon_spec of a valid type text and ANY parts is printable ASCII (0x21..0x7E); theorem_c03_separators -- no encoded component contains a raw separator of its position (@ ? # in namespace / name / version, / in the name, & + # ? in a qualifier value, # ? in the subpath), and the right-to-left splitting finds exactly the written separators (lemma_parse_canon_gen). The type text of handed-out values is lower-case (handed_out lemmas, group c01). Assumed: utf8_percent_encode applies the per-byte table (proved by Kani on the real constants) character by character (A), Vec::retain keeps the order. CROSS-CHECK (bounded, compiled code): an independent renderer on every Unicode scalar value in every component position, all ASCII pairs, T_N, S, SCALE, and the map exploration.'),
     'C04': dict(level='proof', groups=['builder', 'parse', 'lib_shape', 'qual', 'pkgtype', 'cksum', 'purl', 'ckfix', 'c01'], kani=['type_char', 'key_char'], bounded=['tokens:C04', 'scale:C04', 'builder', 'protocol', 'preds', 'checksum', 'qualmap'] + A,
         explanation='Proved (Verus) for every PurlShape implementation: build() returns a value with non-empty name, the qualifier invariant (valid lower-case keys, strictly ascending, each retrievable: search/get contracts), non-empty values including the checksum text, after exactly one hook call (build_post); from_str ends in build() (parse_post); built-in shapes validate and ASCII-lower-case the type; the checksum text is the strictly sorted listing with lower-case hex (canon_text); theorem_c04_checksum (group c01, on theorem_checksum_text_shape of group ckfix): the checksum text of every value build() hands out is the comma-joined listing algorithm:hex of a non-empty sequence of entries in strictly ascending algorithm order with an even number of hex digits each, and contains no ASCII upper-case letter (a text that Unicode lower-casing leaves alone has none: lemma_lower_fixed_no_upper). Every clause of the statement is thus a postcondition of build() / from_str / the accessors / get, or a lemma over them. Assumed: Vec::retain keeps exactly the elements with non-empty values, in order (the one std call inside Qualifiers::retain, FnMut is outside Verus); a user-written hook keeps the qualifier invariant (it can reach the list only through the public API, whose mutators are verified to keep it). The map / checksum / protocol / builder suites remain as a cross-check on the compiled code.'),
     'C05': dict(level='other', groups=['parse', 'parse_seg', 'lib_shape', 'qual', 'pkgtype', 'builder', 'cksum'], kani=['type_char', 'key_char'], bounded=['faults', 'tokens:C05', 'scale:C05', 'lower', 'checksum'] + A,
